@@ -418,7 +418,7 @@ class Discovery (EventMixin):
           if len(lldph.tlvs[0].id) == 6:
             try:
               s = lldph.tlvs[0].id
-              originatorDPID = struct.unpack("!Q",'\x00\x00' + s)[0]
+              originatorDPID = struct.unpack("!Q",b'\x00\x00' + s)[0]
             except:
               pass
 
